@@ -65,7 +65,7 @@ def make_values(shape, vk="f", base=1, nan=(), enc="coord"):
         out = np.empty(shape, dtype=object)
     elif vk == "b":
         out = np.empty(shape, dtype=bool)
-    elif vk in ("i", "i4", "i1", "u1", "i2", "u2"):
+    elif vk in ("i", "i4", "i1", "u1", "i2", "u2", "u8"):
         out = np.empty(shape, dtype=np.int64)
     else:
         out = np.empty(shape, dtype=np.float64)
@@ -94,6 +94,8 @@ def make_values(shape, vk="f", base=1, nan=(), enc="coord"):
     if vk in ("i1", "u1", "i2", "u2"):      # narrow integers: only for encodings that fit (small arrays, base 1)
         assert out.size == 0 or (out.min() >= 0 and out.max() < 128), "values do not fit " + vk
         out = out.astype(vk)
+    if vk == "u8":                          # unsigned 64-bit: as wide as int64, but cannot hold negative numbers
+        out = out.astype(np.uint64)
     if nan and vk in ("f", "f4"):
         flat = out.reshape(-1)
         for k in nan:
